@@ -10,7 +10,7 @@ import os
 
 import numpy as np
 
-from .. import em, games, pm, seams, simpool
+from .. import em, games, pm, seams, simpool, simthreads
 from .. import prelude
 from ..core import HarnessError, Sim, SimKill, Violation
 
@@ -28,7 +28,7 @@ REAL_VS_STUB = {"real": ["gameplay.*", "run.best_states.get_best_exploitability"
                 "seams": ["chunk->worker scheduler", "process images", "gameplay.time (simulated clock)"]}
 ASSUMPTIONS = ["starting knowledge contains the minimal information", "n <= 4 (all subsets up to k)",
                "SimPool models process pools at task granularity; worker death is not injected"]
-PROBES = ["meta_game_used_after_a_failed_call", "more_than_1000_reveal_sets", "one_game_object_reused_across_searches", "search_retried_after_interrupt", "best_states_on_a_stepped_environment", "chunk_with_2plus_tasks", "worker_ran_2plus_chunks", "more_workers_than_chunks",
+PROBES = ["search_overlapped_with_another_threads_search", "meta_game_used_after_a_failed_call", "more_than_1000_reveal_sets", "one_game_object_reused_across_searches", "search_retried_after_interrupt", "best_states_on_a_stepped_environment", "chunk_with_2plus_tasks", "worker_ran_2plus_chunks", "more_workers_than_chunks",
           "starting_knowledge_beyond_minimal", "best_states", "meta_game", "sampled_several_games",
           "calibrated_against_real_pool", "n4"]
 TIERS = {
@@ -175,8 +175,23 @@ def _sequences(sim, gameplay, n, comp_name, gap, K0, unknown, k, hidden, configs
         c = {**ctx, "processes": p, "image_model": image, "game_object_reused": shared is not None}
         with sim.guard("C11.search_raised"):
             with simpool.installed(sim, image):
-                res = list(gameplay.get_exploitabilities_of_action_sequences(
-                    game, full, gap, max_size=k, processes=p))
+                if n <= 4 and len(unknown) <= 11 and sim.flip(1, 6, "overlapping-search"):
+                    # another caller thread runs a search of its own (another game, another gap function) meanwhile
+                    v2, _ = games.draw_game(sim, 3, "SA")
+                    g2, f2 = _start_game(3, "superadditive", games.minimal_ids(3), v2), games.full_game(v2, 3)
+                    gap2 = games.gap_functions()[sim.pick(["l1_norm", "linf_norm"], "other-search-gap")]
+
+                    def other_search():
+                        try:
+                            list(gameplay.get_exploitabilities_of_action_sequences(g2, f2, gap2, max_size=2, processes=1))
+                        except Exception:  # not judged
+                            pass
+                    res = simthreads.interleave(sim, [lambda: list(gameplay.get_exploitabilities_of_action_sequences(
+                        game, full, gap, max_size=k, processes=p)), other_search])[0]
+                    sim.probe("search_overlapped_with_another_threads_search")
+                else:
+                    res = list(gameplay.get_exploitabilities_of_action_sequences(
+                        game, full, gap, max_size=k, processes=p))
         vals = check_result(sim, res, n, comp_name, gap, K0, unknown, k, hidden, c, cache)
         order = [tuple(sorted(x.id for x in seq)) for seq, _ in res]
         if first is None:
